@@ -8,7 +8,7 @@ from harness import core, py2lean, instantiate
 from harness.core import Outcome, f2b, b2f
 
 ID = "C06"
-LEAN_TARGETS = ["BeyondVerif.Props.C06", "BeyondVerif.Props.C06Iter", "BeyondVerif.Props.C06Conv", "BeyondVerif.Props.C06Adapt"]
+LEAN_TARGETS = ["BeyondVerif.Props.C06", "BeyondVerif.Props.C06Iter", "BeyondVerif.Props.C06Conv", "BeyondVerif.Props.C06Adapt", "BeyondVerif.Props.C06Gen"]
 THEOREMS = [
     "BeyondVerif.C06.trees_orders_gammas",
     "BeyondVerif.C06.euler_order1",
@@ -94,6 +94,14 @@ THEOREMS = [
     "BeyondVerif.C06.energy_first_integral",
     "BeyondVerif.C06.angular_momentum_first_integral",
     "BeyondVerif.C06.circ_solves",
+    # the general one-step theorem for a tableau (Props/C06Gen.lean)
+    "BeyondVerif.C06.rkOnce_coords",
+    "BeyondVerif.C06.butcher_shaped",
+    "BeyondVerif.C06.stepE_sub_euler",
+    "BeyondVerif.C06.stepE_lipschitz",
+    "BeyondVerif.C06.rk_converges",
+    "BeyondVerif.C06.butcher_consistent",
+    "BeyondVerif.C06.every_integrator_converges",
     # the adaptive controller (Props/C06Adapt.lean)
     "BeyondVerif.C06.usRound_close",
     "BeyondVerif.C06.step_scale_contracts",
@@ -113,7 +121,10 @@ LEVEL_TEXT = ("Lean theorems over R about the four Butcher tableaux, the per-bod
               "the gradient of mu/|r| (HasGradientAt), and energy and every component of r x v have derivative 0 along ANY solution of the modelled "
               "equation of motion; the model's step on the regenerated RK4 tableau IS the classical Runge-Kutta map, which is "
               "(1+z+z^2/2+z^3/6+z^4/24)-Lipschitz (z = hL), equals the degree-4 Taylor polynomial of exp(hA) on every linear system y' = A y, converges "
-              "unconditionally (order >= 1) for globally Lipschitz bounded autonomous fields, at order 4 GIVEN the local error C h^5 (_partial), and at "
+              "unconditionally (order >= 1) for globally Lipschitz bounded autonomous fields — as does EVERY well-shaped tableau whose weights sum to 1 "
+              "(Props/C06Gen: the model's generic rkOnce is the normed-space step stepE in coordinates for any such tableau; consistency "
+              "|step - Euler| <= (sum|b_i|) alpha L B h^2; step map (1 + h L sum|b_i| (1+hL alpha)^(s-1))-Lipschitz; rk_converges; instantiated for "
+              "all four regenerated tableaux, alpha = 25: every_integrator_converges) —, at order 4 GIVEN the local error C h^5 (_partial), and at "
               "order 4 with no hypothesis left on the linear test equation (local error = exp remainder <= |y||h lambda|^5/100). ADAPTIVE CONTROLLER "
               "(Props/C06Adapt): an adaptive step is only accepted with its embedded estimate <= tol; a rejected pass contracts the step by at least "
               "(1/2)^(1/(s-1)) whatever its sign, also through timedelta's rounding to microseconds; the step-size loop ends within its fuel whenever the "
